@@ -63,7 +63,8 @@ def hook(rd, e, st, ctx):
 
 def comma_init(e):
     """Eigen comma initialiser  `target << a, b, c`  ->  (target node, [value nodes]) ; None otherwise."""
-    e = strip_casts(e)
+    from .tree import strip as _strip
+    e = _strip(e)
     vals = []
     while e is not None and e.get('k') == 'Op' and e.get('op') == ',' and len(e.get('args', [])) == 2:
         vals.append(e['args'][1])
